@@ -29,6 +29,37 @@ META = {
 D = "ec_core::distributions::"
 
 
+def choose_guarded_canonical(ctx, f, wrap=None):
+    """canonical outcomes of a Choose-based constructor / conversion, however the error mapping is spelled (map_err(|_| EmptySlice),
+    .or(Err(EmptySlice)), a match, a shared helper): one Choose::new over the collection itself; Ok -> that chooser (wrapped in
+    `wrap` if given), Err -> EmptySlice"""
+    from . import ckit as K
+    paths = K.live(ctx.cpaths(f))
+    src = lambda a: K.strip(peel(a, ("Deref::deref", "[T; N]::as_slice", "Vec::as_slice", "Borrow::borrow", "AsRef::as_ref"), casts=True), calls=()) == ("param", 1)
+    seen = set()
+    ok = len(paths) == 2
+    for p in paths:
+        ch = K.calls_of(p, "Choose::new")
+        kind, pay = K.outcome(p)
+        okp = len(ch) == 1 and len(ch[0][3]) == 1 and src(ch[0][3][0]) and len([c for c in p.calls() if not callee_is(c, "Deref::deref", "[T; N]::as_slice", "Vec::as_slice", "Borrow::borrow", "AsRef::as_ref")]) == 1
+        if okp and K.discr_is(p, lambda o: o == ch[0], 0):
+            v = K.strip(pay, calls=()) if pay is not None else None
+            if wrap is not None and v is not None and v[0] == "agg" and path_ends(v[2], wrap) and len(v[3]) == 1:
+                v = K.strip(v[3][0], calls=())
+            elif wrap is not None:
+                v = None
+            okp = kind == "ok" and v == ("field", ch[0], 0, "Ok")
+            seen.add("ok")
+        elif okp and K.discr_is(p, lambda o: o == ch[0], 1):
+            e = K.conv_free(pay) if pay is not None else None
+            okp = kind == "err" and e is not None and e[0] == "agg" and path_ends(e[2], "EmptySlice::EmptySlice")
+            seen.add("err")
+        else:
+            okp = False
+        ok = ok and okp
+    return ok and seen == {"ok", "err"}, "Choose::new(self): Ok -> the chooser, Err -> EmptySlice"
+
+
 def check(ctx):
     F = ctx.F
     # ---- R18.1 ---------------------------------------------------------------------
@@ -110,6 +141,9 @@ def check(ctx):
                 how = short(r, 3)
             elif match(r, Call("ToDistribution::to_distribution", src, nargs=1)) and len(ps[0].calls()) <= 2:
                 good, how = True, short(r, 3) + " (sibling impl)"
+        if not good:
+            good, how2 = choose_guarded_canonical(ctx, f)
+            how = how2 if good else how
         ctx.check(good, "R18.2", key + "/reaches-guarded-constructor-with-self", how, f.at(),
                   bad_detail="conversion must be OneOfCloning::new(self) | ChooseCloning::new(self) | Choose::new(self).map_err(|_| EmptySlice) | to_distribution(self); extracted " + "; ".join(short(p.ret, 6) for p in ps))
     # OneOfCloning::new
@@ -136,6 +170,8 @@ def check(ctx):
     if good:
         cps = closure_paths(ctx, b["clo"]) if b["clo"][0] == "agg" else None
         good = bool(cps) and len(cps) == 1 and match(cps[0].ret, Agg("EmptySlice::EmptySlice"))
+    if not good:
+        good, _ = choose_guarded_canonical(ctx, f, wrap="ChooseCloning::ChooseCloning")
     ctx.check(good, "R18.2", "ChooseCloning::new/Choose::new-error->EmptySlice", short(okp[0].ret, 5) if okp else "-", f.at())
 
     # ---- R18.3 -------------------------------------------------------------------------
